@@ -126,7 +126,11 @@ impl<const B: Word> Repr<B> {
             if fract.is_zero() {
                 int
             } else {
-                exponent -= fract_digits as isize;
+                // a scale this close to isize::MIN cannot absorb the fraction digits: the number is not
+                // representable, report it like a scale literal that overflows isize
+                exponent = exponent
+                    .checked_sub(fract_digits as isize)
+                    .ok_or(ParseError::InvalidDigit)?;
                 int * UBig::from_word(B).pow(fract_digits) + fract
             }
         } else {
